@@ -228,7 +228,20 @@ def st_field_case(draw):
     name = {"series": draw(st.sampled_from([None, "s"])), "column": "a", "index": draw(st.sampled_from([None, "ix"]))}[kind]
     size = draw(st.sampled_from(SIZES))
     f = draw(st_field(clean, name, role=kind, size=size))
-    return {"kind": kind, "clean": clean, "field": f, "size": size, "seed": draw(st.integers(0, 2 ** 16))}
+    case = {"kind": kind, "clean": clean, "field": f, "size": size, "seed": draw(st.integers(0, 2 ** 16))}
+    if sp.cls_of(f["dtype"]) in ("dt", "td") and draw(st.integers(0, 2)) == 0:
+        case["tscale"] = "ns"
+        if draw(st.booleans()):
+            # a range a few nanoseconds wide and a membership check over instants inside it: every drawn element is
+            # compared with the listed values (scalars of different libraries must be recognised as the same instant)
+            t = draw(st.integers(-20, 20))
+            w = draw(st.integers(2, 4))
+            inside = list(range(t, t + w + 1))
+            k = draw(st.sampled_from(["notin", "notin", "isin"]))
+            vs = sorted(draw(st.sets(st.sampled_from(inside), min_size=1, max_size=len(inside) - 1)))
+            f["checks"] = [{"c": "in_range", "lo": t, "hi": t + w, "imin": True, "imax": True}, {"c": k, "vs": vs}]
+            f["unique"] = False
+    return case
 
 
 @st.composite
@@ -241,6 +254,17 @@ def st_frame_case(draw):
         tags = [draw(_tag_strategy()) for _ in range(nl)]
         levels = [draw(st_field(clean, f"l{i}", tag=tags[i], maxlen=2, role="level")) for i in range(nl)]
         return {"kind": "multiindex", "clean": clean, "levels": levels, "size": size, "seed": seed}
+    if draw(st.integers(0, 6)) == 0:
+        # joint uniqueness whose first key column is nullable (its values are nulled by the mask applied after the
+        # column strategies) next to a key column with very few distinct values: the tuples must stay distinct
+        c0 = {"name": "c0", "dtype": draw(st.sampled_from(["float64", "float64", "datetime64[ns]", "str"])), "nullable": True,
+              "unique": False, "checks": [], "regex": False}
+        vs = sorted(draw(st.sets(st.integers(0, 3), min_size=2, max_size=3)))
+        c1 = {"name": "c1", "dtype": "int64", "nullable": False, "unique": False, "checks": [{"c": "isin", "vs": vs}],
+              "regex": False}
+        cols = [c0, c1] if draw(st.integers(0, 3)) > 0 else [c1, c0]
+        return {"kind": "dataframe", "clean": False, "columns": cols, "checks": [], "index": None,
+                "unique": [c["name"] for c in cols], "size": draw(st.sampled_from([2, 3, 3])), "seed": seed, "n_regex_columns": 1}
     ncols = draw(st.sampled_from([1, 1, 2, 2, 3]))
     frame_checks = []
     numeric_only = draw(st.integers(0, 3)) == 0
@@ -571,7 +595,10 @@ def evaluate(case, fresh=False):
     import pandas as pd
     import pandera.errors as pe
 
+    sp.set_time_scale(case.get("tscale"))
     ev = Eval()
+    if case.get("tscale"):
+        ev.labels.append("tscale=" + case["tscale"])
     interesting = _labels(case, ev)
     S = sp.mk_schema(case)
     kw = {"size": case.get("size")}
